@@ -238,8 +238,10 @@ impl<W: WorldOps> Engine<W> {
             self.unexpected_panic(Some(wi), "query with Break", &c);
             return;
         }
+        // Break inside ecs_iter_destroy! is C07's clause, inside ecs_iter!/ecs_iter_borrow! C06's
+        let btags: &[&'static str] = if mode >= QM_ITER_DESTROY { &["C07"] } else { &["C06"] };
         if visits.len() != k + 1 {
-            self.viol(Some(wi), &["C06"], "break", format!("{} query '{}': Break returned at call {} of {total}, but the closure ran {} times", QUERY_MODES[mode], self.queries[q].name, k + 1, visits.len()));
+            self.viol(Some(wi), btags, "break", format!("{} query '{}': Break returned at call {} of {total}, but the closure ran {} times", QUERY_MODES[mode], self.queries[q].name, k + 1, visits.len()));
             return;
         }
         let mut seen = std::collections::BTreeSet::new();
@@ -247,7 +249,7 @@ impl<W: WorldOps> Engine<W> {
             match expect.get(&v.entity.raw()) {
                 Some((_, cells)) if *cells == v.cells && seen.insert(v.entity.raw()) => {}
                 _ => {
-                    self.viol(Some(wi), &["C06"], "break", format!("query '{}' with Break: bad or repeated visit {}", self.queries[q].name, raw_fmt(v.entity)));
+                    self.viol(Some(wi), btags, "break", format!("query '{}' with Break: bad or repeated visit {}", self.queries[q].name, raw_fmt(v.entity)));
                     return;
                 }
             }
